@@ -304,6 +304,8 @@ def run(ctx) -> None:
     r4 = ctx.rule("R16.4", "symmetry transformation never modifies its operand")
     tt = idx.function(PS, "PointSymmetry.transform_tensor")
     cfg, du, pm = fctx(tt)
+    TS4 = Sem(idx, tt)
+    TS4.keep_names = {"res"}
     r4.instance(tt.short)
     data_param = tt.node.args.args[1].arg
     tcall = idx.function(PS, "Transform.__call__")
@@ -323,7 +325,7 @@ def run(ctx) -> None:
             if isinstance(v, ast.Call) and (call_name(v) in COPYING or (isinstance(v.func, ast.Attribute) and v.func.attr in ("copy", "transpose") and
                                                                        call_name(v) not in ("np.asarray",))):
                 # .transpose(...) of self.rotate(...) (a matmul result) is a view of a NEW array
-                if isinstance(v.func, ast.Attribute) and v.func.attr == "transpose" and "self.rotate(" not in norm(v):
+                if isinstance(v.func, ast.Attribute) and v.func.attr == "transpose" and "self.rotate(" not in norm(v) and "self.rotate(" not in TS4.rnorm(v, df.node):
                     return f"`{norm1(v, 60)}` (a view of the operand)"
                 continue
             if isinstance(v, ast.Call) and norm(v.func) == "self.rotate":
